@@ -155,6 +155,10 @@ class Batch:
             starts = [r for r in recs if r.get('ev') == 'start']
             out.extend(ends)
             done = set(r['run'] for r in ends)
+            rst = [r for r in recs if r.get('ev') == 'restart']
+            if rc == 0 and rst and not is_race(err):
+                cur = rst[-1]['next']
+                continue
             if rc == 0 and not is_race(err):
                 if any(r.get('ev') == 'wall' for r in recs):
                     self.infra.append('worker hit its wall-clock limit at run %s' % [r for r in recs if r.get('ev') == 'wall'][0].get('next'))
